@@ -204,8 +204,11 @@ class SymmetryAnalyzer(object):
         Returns:
             bool: is the object chiral.
         """
-        operations = self.get_symmetry_operations()
-        rotations = operations["rotations"]
+        # The operations of the input cell do not contain the full space group
+        # when the input is a supercell whose lattice breaks some of the
+        # rotations: use the operations of the detected space group instead.
+        hall_number = self.get_hall_number()
+        rotations = spglib.get_symmetry_from_database(hall_number)["rotations"]
         chiral = True
         for rotation in rotations:
             determinant = np.linalg.det(rotation)
